@@ -30,6 +30,39 @@ def _guarded_not_absent(cfg: CFG, nodes: list[int], expr: ast.AST) -> bool:
     return bool(nodes)
 
 
+def check_empty_block_header(run: Run) -> None:
+    run.rule("R18.8", "present-but-empty is not absent: in the META emitter the `KEY:` header of a nested block is appended unconditionally as soon as the value is a dict (it does not depend on whether any nested field produced a line)", 1)
+    em = run.project.mod("core.emitter")
+    cands = [f for q, f in em.functions.items() if q in ("emit_meta", "_emit_meta_fields")]
+    n = 0
+    for fi in cands:
+        for b in walk_no_nested(fi.node):
+            if isinstance(b, ast.If) and ast.unparse(b.test).replace(" ", "") in ("isinstance(value,dict)",) or (isinstance(b, ast.If) and "isinstance" in ast.unparse(b.test) and ast.unparse(b.test).endswith(", dict)")):
+                n += 1
+                def is_header(st):
+                    return isinstance(st, ast.Expr) and isinstance(st.value, ast.Call) and isinstance(st.value.func, ast.Attribute) and st.value.func.attr == "append" and st.value.args and isinstance(st.value.args[0], ast.JoinedStr) and isinstance(st.value.args[0].values[-1], ast.Constant) and str(st.value.args[0].values[-1].value).endswith(":") and not str(st.value.args[0].values[-1].value).endswith("::")
+                top = [st for st in b.body if is_header(st)]
+                nested = [st for st in ast.walk(b) if isinstance(st, ast.Expr) and is_header(st) and st not in b.body]
+                ok = bool(top)
+                if ok:
+                    # nothing before the header can leave this iteration (an `if ...: continue` ahead of it makes it conditional)
+                    def leaves(st) -> bool:
+                        if isinstance(st, (ast.Continue, ast.Return, ast.Break)):
+                            return True
+                        if isinstance(st, (ast.For, ast.While, ast.FunctionDef)):
+                            return False
+                        return any(leaves(c) for c in ast.iter_child_nodes(st) if isinstance(c, ast.stmt)) or any(leaves(c) for f in ("body", "orelse") for c in getattr(st, f, []) if isinstance(c, ast.stmt))
+                    before = b.body[: b.body.index(top[0])]
+                    if any(leaves(st) for st in before):
+                        ok = False
+                        nested = before
+                run.instance("R18.8", em.loc(b), f"{fi.qualname}: nested-block header appended unconditionally: {ok}", ok=ok)
+                if not ok:
+                    run.violation("R18.8", em, fi.qualname, "nested META block header is conditional", f"{fi.qualname} writes the `KEY:` header of a block nested in META only under a condition ({len(nested)} conditional site(s)): a block that is present but empty (EXTENSIONS: with no fields) disappears from every file the tools write, although no change named it")
+    if n < 1:
+        raise AnalysisError("emit_meta: dict branch not found")
+
+
 def check(run: Run) -> None:
     res = Resolver(run.project)
     am = AstModel(run.project)
@@ -302,6 +335,7 @@ def check(run: Run) -> None:
             st = getattr(st, "_parent", None)
         run.violation("R18.6", cli.module, cli.qualname, "inline changes loop in `octave write --changes`", "the CLI applies --changes with its own loop instead of the tool's tri-state implementation: the DELETE sentinel is written as a value, a META{...} request replaces META, and list/dict values are stored unwrapped",
                       failing_input='octave write f.oct.md --changes \'{"A":{"$op":"DELETE"},"META":{"TYPE":"Y"},"L":["a","b"]}\' -> A::{\'$op\': \'DELETE\'}, other META fields gone, L::[\'a\', \'b\']', line=getattr(st, "lineno", 0) if isinstance(st, ast.AST) else 0)
+    check_empty_block_header(run)
 
 
 def check_normalize(run: Run, rule: str) -> None:
